@@ -226,3 +226,26 @@ Proof.
     + rewrite <- Hs. destruct (route_get s to) as [d|]; inversion Es; subst; [|reflexivity].
       destruct ok; cbn [deliveries]; rewrite !N.eqb_refl; reflexivity.
 Qed.
+
+(* ================= media type selection ================= *)
+Lemma pick_top : forall accept mt,
+  (exists m, In m accept /\ tier_of m = TTop) -> exists m', pick mt accept = Some m' /\ tier_of m' = TTop.
+Proof.
+  induction accept as [|a accept IH]; intros mt [m [Hin Ht]]; [destruct Hin|].
+  cbn [pick]. destruct (tier_of a) eqn:Ea.
+  - destruct Hin as [->|Hin]; [congruence|]. apply IH. exists m; auto.
+  - destruct Hin as [->|Hin]; [congruence|]. apply IH. exists m; auto.
+  - exists a. auto.
+  - destruct Hin as [->|Hin]; [congruence|]. apply IH. exists m; auto.
+Qed.
+
+Lemma pick_in : forall accept mt m, pick mt accept = Some m -> mt = Some m \/ In m accept.
+Proof.
+  induction accept as [|a accept IH]; intros mt m H; [left; exact H|].
+  cbn [pick] in H. destruct (tier_of a).
+  - destruct (IH _ _ H) as [H1|H1]; [|right; right; exact H1].
+    destruct mt; [left; exact H1|inversion H1; right; left; reflexivity].
+  - destruct (IH _ _ H) as [H1|H1]; [inversion H1; right; left; reflexivity|right; right; exact H1].
+  - inversion H; right; left; reflexivity.
+  - destruct (IH _ _ H) as [H1|H1]; [left; exact H1|right; right; exact H1].
+Qed.
